@@ -263,9 +263,10 @@ CS101_ASDU_addInformationObject(CS101_ASDU self, InformationObject io)
     int numberOfElements = CS101_ASDU_getNumberOfElements(self);
 
     if (numberOfElements == 0) {
-        self->asdu[0] = (uint8_t) InformationObject_getType(io);
-
         encoded = InformationObject_encode(io, (Frame) &asduFrame, self->parameters, false);
+
+        if (encoded)
+            self->asdu[0] = (uint8_t) InformationObject_getType(io);
     }
     else if (numberOfElements < 0x7f) {
 
